@@ -79,7 +79,7 @@ func TestE3(t *testing.T) {
 			r.Outcomes[k] = 1
 		}
 	}
-	r.Exhaustive = true
+	r.Exhaustive = len(r.ToolErrs) == 0
 	r.LevelDone, r.LevelMax = 1, 1
 	r.Samples = [][]string{e.samples}
 	for _, v := range e.viols {
